@@ -66,7 +66,7 @@ class EsClient:
         return self.guarded(self._client.delete, index=index, id=id, ignore=404)
 
     def get_index(self, name):
-        return self.guarded(self._client.indices.get, name=name)
+        return self.guarded(self._client.indices.get, index=name)
 
     def create_index(self, index):
         # ignore 400 status code (BadRequestError) when index already exists
